@@ -706,6 +706,17 @@ func (ex *Exec) withAxioms(q []*Term) []*Term {
 	}
 	for name, as := range apps {
 		sort.Slice(as, func(i, j int) bool { return as[i].ID < as[j].ID })
+		if len(as) > 12 {
+			// many applications: the pairwise instantiation is quadratic. Use the
+			// equisatisfiable left-inverse form inv_k(f(x1..xn)) = xk (linear).
+			for _, a := range as {
+				for k, arg := range a.Args {
+					q = append(q, Eq(UF(fmt.Sprintf("inv%d.%s", k, name), arg.Sort, a), arg))
+					ex.axiomsUsed["injective:"+name]++
+				}
+			}
+			continue
+		}
 		for i := 0; i < len(as); i++ {
 			for j := i + 1; j < len(as); j++ {
 				same := tTrue
